@@ -6,10 +6,12 @@ mod exec;
 mod fam;
 mod hsys;
 mod oracles;
+mod p_async;
 mod p_builder;
 mod p_layout;
 mod p_meta;
 mod p_misc;
+mod p_parseq;
 mod p_sched;
 mod p_world;
 mod wtypes;
@@ -689,6 +691,30 @@ fn sched_subs_for(id: &str) -> Vec<Sub> {
         ],
         "C14g" => vec![],
         "C17" => vec![sub(p_meta::C17, 60_000, 1_500_000)],
+        "C15" => vec![Sub {
+            max_lanes: 4,
+            ..sub(
+                p_async::C15 {
+                    cfg: GenCfg {
+                        max_ops: 10,
+                        max_inner_ops: 3,
+                        universe_max: 6,
+                        max_depth: 2,
+                        tl_in_batch: false,
+                        p_tl: 2,
+                        ..GenCfg::default()
+                    },
+                    property: "C15",
+                    name: "c15-async",
+                },
+                1_200,
+                40_000,
+            )
+        }],
+        "C16" => vec![Sub {
+            max_lanes: 8,
+            ..sub(p_parseq::C16, 20_000, 600_000)
+        }],
         "C09" => vec![sub(p_world::C09, 60_000, 1_500_000)],
         "C08" => vec![sub(p_world::C08, 60_000, 1_500_000)],
         "C11" => vec![Sub {
@@ -715,6 +741,28 @@ fn sched_subs_for(id: &str) -> Vec<Sub> {
             100_000,
         )],
         "C12" => vec![
+          Sub {
+            max_lanes: 4,
+            ..sub(
+                // the asynchronous dispatcher's thread-local clause: only inside wait(), on the
+                // calling thread, once per wait (same machinery as C15, thread-local-heavy plans)
+                p_async::C15 {
+                    cfg: GenCfg {
+                        max_ops: 8,
+                        max_inner_ops: 3,
+                        universe_max: 6,
+                        max_depth: 1,
+                        tl_in_batch: false,
+                        p_tl: 5,
+                        ..GenCfg::default()
+                    },
+                    property: "C12",
+                    name: "c12-async-wait",
+                },
+                400,
+                20_000,
+            )
+          },
           sub(
             p_misc::C12Sendable {
                 cfg: GenCfg {
